@@ -120,6 +120,10 @@ func c06MustReject(t C06Tx) (bool, string) {
 		if !c06AllTopLevelEth(t.Msgs) {
 			return true, "non-eth-message-on-eth-route"
 		}
+		// the Ethereum route understands exactly one option, its own
+		if len(t.Ext) != 1 {
+			return true, "critical-option-not-understood-by-route"
+		}
 		return false, ""
 	}
 	if c06HasEthAnywhere(t.Msgs) {
@@ -181,6 +185,7 @@ func c06Empty() []byte {
 type c06Builder struct {
 	a, b     chain.Account
 	ethNonce uint64
+	incNonce bool // consecutive nonces for the Ethereum messages of one tx (a well-formed Ethereum-route tx)
 	counter  int64
 }
 
@@ -206,6 +211,9 @@ func (bl *c06Builder) msg(n C06Node) sdk.Msg {
 	case "ethtx":
 		to := b.Hex
 		tx := txb.SignEth(a, txb.Eth{Type: 0, ChainID: big.NewInt(11235), Nonce: bl.ethNonce, To: &to, Value: big.NewInt(1000 + bl.counter), Gas: 21000, GasPrice: gwei10})
+		if bl.incNonce {
+			bl.ethNonce++
+		}
 		m := &evmtypes.MsgEthereumTx{}
 		must(m.FromEthereumTx(tx))
 		return m
@@ -251,7 +259,7 @@ func c06Encode(n *chain.Node, t C06Tx) (bz []byte, signedProperly bool, err erro
 	}()
 	a, b := chain.Acct("c06a0"), chain.Acct("c06a1")
 	num, seq := txb.AccInfo(n.Ctx(), n.App, a.Addr)
-	bl := &c06Builder{a: a, b: b, ethNonce: seq}
+	bl := &c06Builder{a: a, b: b, ethNonce: seq, incNonce: c06Route(t) == "eth"}
 	var msgs []sdk.Msg
 	for _, m := range t.Msgs {
 		msgs = append(msgs, bl.msg(m))
@@ -268,7 +276,12 @@ func c06Encode(n *chain.Node, t C06Tx) (bz []byte, signedProperly bool, err erro
 	c := txb.Cosmos{Msgs: msgs, Gas: gas, Fee: coinsOfGas(gas, gwei10), ChainID: chain.ChainID, AccNum: num, Seq: seq, ExtOpts: ext, NonCritOpts: non}
 	switch route {
 	case "eth":
-		// the eth envelope: no signatures, fee = sum of the eth fees when all messages are eth messages
+		// the eth envelope: no signatures, fee = sum of the eth fees and gas = sum of the gas limits when all messages are
+		// eth messages (what the JSON-RPC server builds)
+		if c06AllTopLevelEth(t.Msgs) {
+			c.Gas = 21000 * uint64(len(msgs))
+			c.Fee = coinsOfGas(c.Gas, gwei10)
+		}
 		bld := c.Builder()
 		bz, err = txb.TxConfig().TxEncoder()(bld.GetTx())
 		return bz, true, err
@@ -326,6 +339,20 @@ func genC06Node(t *rapid.T, depth, maxDepth int, forceLeaf string) C06Node {
 
 func genC06Tx(t *rapid.T) C06Tx {
 	tx := C06Tx{}
+	if rapid.IntRange(0, 7).Draw(t, "eth-route") == 0 {
+		// a well-formed Ethereum-route tx (1-3 Ethereum messages), possibly carrying further options behind its own
+		tx.Ext = []string{"eth"}
+		for i, n := 0, rapid.IntRange(0, 2).Draw(t, "eth-extra"); i < n; i++ {
+			tx.Ext = append(tx.Ext, rapid.SampledFrom([]string{"eth", "web3", "dyn"}).Draw(t, "eth-extra-opt"))
+		}
+		if rapid.IntRange(0, 4).Draw(t, "eth-noncrit") == 0 {
+			tx.NonCrit = []string{rapid.SampledFrom([]string{"web3", "dyn", "unknown"}).Draw(t, "eth-noncrit-v")}
+		}
+		for i, n := 0, rapid.IntRange(1, 3).Draw(t, "eth-nmsgs"); i < n; i++ {
+			tx.Msgs = append(tx.Msgs, C06Node{K: "ethtx"})
+		}
+		return tx
+	}
 	switch rapid.IntRange(0, 9).Draw(t, "ext-kind") {
 	case 0, 1, 2, 3:
 	case 4:
@@ -449,6 +476,13 @@ func runC06(st *ev.Stats, c C06Case) string {
 				return fail("benign-rejected:"+route, fmt.Sprintf("tx %d %+v is benign but was rejected: code %d %s", i, t, res.Code, trunc(res.Log)))
 			}
 			st.Class("benign-accepted")
+		}
+		// positive control of the Ethereum route: its own option alone, only Ethereum messages
+		if route == "eth" && len(t.NonCrit) == 0 {
+			if res.Code != 0 {
+				return fail("benign-rejected:"+route, fmt.Sprintf("tx %d %+v is a plain Ethereum-route tx but was rejected: code %d %s", i, t, res.Code, trunc(res.Log)))
+			}
+			st.Class("benign-accepted:eth")
 		}
 	}
 	if allBad {
